@@ -31,7 +31,7 @@ type eng struct{}
 
 func (eng) Name() string { return "snapstore" }
 func (eng) CoqRequire(mode string) string {
-	return "From RV Require Import Corr.Check_snapstore.\nImport Check_snapstore."
+	return "From RV Require Import Base.Mach Base.Bytes Model.SnapStore Corr.Check_snapstore."
 }
 func (eng) CoqCaseType(mode string) string { return "Check_snapstore.case" }
 func (eng) CoqRun(mode string) string      { return "Check_snapstore.run" }
